@@ -26,6 +26,8 @@ from collections import Counter, OrderedDict
 
 VERIF_DIR = os.path.dirname(os.path.dirname(os.path.abspath(__file__)))
 REPO = os.environ.get("VERIF_REPO", "/repo")
+# where evidence and newly found replay files go; the mutation self-test points this at a scratch directory
+OUT_DIR = os.environ.get("VERIF_OUT", VERIF_DIR)
 
 
 class HarnessError(Exception):
@@ -401,13 +403,17 @@ def load_known_findings():
 
 
 def write_replay(prop, bucket, part, case, detail):
-    d = os.path.join(VERIF_DIR, "replay", prop)
+    d = os.path.join(OUT_DIR, "replay", prop)
     os.makedirs(d, exist_ok=True)
     h = hashlib.sha256(bucket.encode()).hexdigest()[:12]
     path = os.path.join(d, "found-%s.json" % h)
     with open(path, "w") as f:
         json.dump({"property": prop, "bucket": bucket, "part": part, "detail": detail, "case": case}, f, indent=1, default=repr)
     return path
+
+
+def _rel(path):
+    return os.path.relpath(path, VERIF_DIR) if OUT_DIR == VERIF_DIR else path
 
 
 def committed_replays(prop):
@@ -499,7 +505,7 @@ def main(modname, tier, seed, replay=None, nshards=None):
             path = replay_map[bucket]
         else:
             path = write_replay(prop, bucket, b["part"], b["smallest"], b["detail"])
-        lines.append("VIOLATION property=%s replay=%s" % (prop, os.path.relpath(path, VERIF_DIR)))
+        lines.append("VIOLATION property=%s replay=%s" % (prop, _rel(path)))
         lines.append("  bucket: %s (%d cases)\n  detail: %s" % (bucket, b["count"], b["detail"]))
         violations += 1
     if violations:
@@ -511,7 +517,7 @@ def main(modname, tier, seed, replay=None, nshards=None):
             # a check classified something as a finding that the committed file does not list: that is an alarm
             w = total.known_witness[fid]
             path = write_replay(prop, "unlisted-finding:" + fid, w["part"], w["case"], w["detail"])
-            lines.append("VIOLATION property=%s replay=%s" % (prop, os.path.relpath(path, VERIF_DIR)))
+            lines.append("VIOLATION property=%s replay=%s" % (prop, _rel(path)))
             lines.append("  the check classified %d cases as finding %s, which known_findings.json does not list" % (n, fid))
             rc = 1
             violations += 1
@@ -557,8 +563,8 @@ def main(modname, tier, seed, replay=None, nshards=None):
         "wall_s": round(wall, 3),
         "violations": violations,
     }
-    os.makedirs(os.path.join(VERIF_DIR, "evidence"), exist_ok=True)
-    with open(os.path.join(VERIF_DIR, "evidence", "%s.json" % prop), "w") as f:
+    os.makedirs(os.path.join(OUT_DIR, "evidence"), exist_ok=True)
+    with open(os.path.join(OUT_DIR, "evidence", "%s.json" % prop), "w") as f:
         json.dump(evidence, f, indent=1, default=repr)
         f.write("\n")
 
